@@ -304,3 +304,6 @@ class ParsedSubsetState(SubsetState):
         if view is not None:
             result = result[view]
         return result
+
+    def copy(self):
+        return ParsedSubsetState(self._parsed)
